@@ -77,6 +77,56 @@ Theorem c01_set_frame :
   get_entry (set_value now d k v ttl) k' = get_entry d k'.
 Proof. exact set_value_other. Qed.
 
+(** SETRANGE: length and content of the result (zero padding before the offset comes from
+    the padded original; the payload lands at [off, off + len v)) *)
+Theorem c01_setrange_length :
+  forall b off v, 0 <= off -> len (setrange_bytes b off v) = Z.max (len b) (off + len v).
+Proof. exact setrange_length. Qed.
+Theorem c01_setrange_payload :
+  forall b off v i, 0 <= off -> 0 <= i < len v ->
+  nth_error (setrange_bytes b off v) (Z.to_nat (off + i)) = nth_error v (Z.to_nat i).
+Proof. exact setrange_payload. Qed.
+
+(** RENAME: overwrite + TTL carry, source gone, everything else untouched *)
+Theorem c01_rename_spec :
+  forall d o n e k, get_entry d o = Some e ->
+  let d' := snd (eng_rename d o n) in
+  get_entry d' n = Some e /\
+  (beq o n = false -> get_entry d' o = None) /\
+  (beq k o = false -> beq k n = false -> get_entry d' k = get_entry d k).
+Proof. exact rename_spec. Qed.
+
+(** SET NX / XX *)
+Theorem c01_set_nx :
+  forall now d k v, k <> [] ->
+  h_set now d [FBulk (bs "SET"); FBulk k; FBulk v; FBulk (bs "NX")] =
+  if eng_exists now d k then (r_nil, d) else (r_ok, set_value now d k (VStr v) None).
+Proof. exact set_nx_spec. Qed.
+Theorem c01_set_xx :
+  forall now d k v, k <> [] ->
+  h_set now d [FBulk (bs "SET"); FBulk k; FBulk v; FBulk (bs "XX")] =
+  if eng_exists now d k then (r_ok, set_value now d k (VStr v) None) else (r_nil, d).
+Proof. exact set_xx_spec. Qed.
+
+(** APPEND = concatenation, reply = new length *)
+Theorem c01_append_spec :
+  forall d k v,
+  h_append d [FBulk (bs "APPEND"); FBulk k; FBulk v] =
+  match get_entry d k with
+  | Some e => match e_val e with
+              | VStr b => (r_int (len (b ++ v)), put_entry d k {| e_val := VStr (b ++ v); e_exp := e_exp e |})
+              | _ => (r_wrongtype, d)
+              end
+  | None => (r_int (len v), put_entry d k {| e_val := VStr v; e_exp := None |})
+  end.
+Proof. exact append_spec. Qed.
+
+(** EXISTS counts every mention of a visible key *)
+Theorem c01_exists_counts :
+  forall now d args n,
+  exists_count now d args n = n + len (filter (fun k => eng_exists now d k) (bulks_of args)).
+Proof. exact exists_count_spec. Qed.
+
 (** ---- non-vacuity ---- *)
 Example c01_wf_reachable : wf_db empty_db.
 Proof. exact wf_empty. Qed.
